@@ -155,7 +155,10 @@ impl Act {
         match a {
             Action::Default => Act::Default,
             Action::Ignore => Act::Ignore,
-            Action::Command(s) => Act::Command(s.parse().expect("command id")),
+            // stream A: the command is its id; stream C: `hit ID`
+            Action::Command(s) => {
+                Act::Command(s.strip_prefix("hit ").unwrap_or(s).parse().expect("command id"))
+            }
         }
     }
 }
@@ -260,7 +263,9 @@ fn tstate_coq(t: &TrapState) -> String {
         Origin::Inherited => "Inherited".to_string(),
         Origin::Subshell => "Subshell".to_string(),
         Origin::User(loc) => {
-            let tag: u64 = loc.code.value.borrow().parse().expect("tag");
+            // histories of stream A give each trap command a numeric tag as its
+            // location; real locations (stream C) count as tag 0
+            let tag: u64 = loc.code.value.borrow().parse().unwrap_or(0);
             format!("(User {})", coq::n(tag))
         }
     };
@@ -871,9 +876,26 @@ mod script {
     pub const SIGS: [(i32, &str); 4] = [(1, "HUP"), (15, "TERM"), (124, "USR1"), (125, "USR2")];
 
     pub fn name_of(sg: i32) -> &'static str {
+        if sg == SIGCHLD {
+            return "CHLD";
+        }
         SIGS.iter().find(|(n, _)| *n == sg).map(|(_, s)| *s).expect("signal")
     }
-    fn number_of(name: &str) -> i32 {
+    /// any condition name of stream C
+    pub fn number_of_any(name: &str) -> i32 {
+        match name {
+            "EXIT" => 0,
+            "INT" => SIGINT,
+            "QUIT" => SIGQUIT,
+            "KILL" => SIGKILL,
+            "STOP" => SIGSTOP,
+            n => number_of(n),
+        }
+    }
+    pub fn number_of(name: &str) -> i32 {
+        if name == "CHLD" {
+            return SIGCHLD;
+        }
         SIGS.iter().find(|(_, s)| *s == name).map(|(n, _)| *n).unwrap_or_else(|| panic!("signal name {name:?}"))
     }
 
@@ -986,7 +1008,7 @@ mod script {
             status_arg(&args, 1).into()
         })
     }
-    fn raise_main(env: &mut VEnv, args: Vec<Field>) -> BuiltinFuture<'_> {
+    pub fn raise_main(env: &mut VEnv, args: Vec<Field>) -> BuiltinFuture<'_> {
         Box::pin(async move {
             record(env, "raise", &args);
             let sg = number_of(&args[0].value);
@@ -1032,7 +1054,7 @@ mod script {
     /// inside one scheduler step, which the round budget of `vsh` cannot see),
     /// reports the script on stderr and ends the harness with status 4, which
     /// the driver turns into a broken obligation.
-    fn with_watchdog<T>(text: &str, secs: u64, f: impl FnOnce() -> T) -> T {
+    pub fn with_watchdog<T>(text: &str, secs: u64, f: impl FnOnce() -> T) -> T {
         let (tx, rx) = std::sync::mpsc::channel::<()>();
         let script = text.to_string();
         let h = std::thread::spawn(move || {
@@ -1215,6 +1237,45 @@ mod script {
             w.count("class:retrap-while-pending");
         }
         w.push(&term, &json, &tags, key);
+    }
+
+    /// A hand-written script outside the command language of the model: only
+    /// the monitor judges its trace.  `tbl` lists the events each trap action
+    /// records.
+    pub fn emit_monitor_only(w: &mut CasesWriter, tbl: &[(u32, Vec<B>)], text: &str) {
+        let r = run(text);
+        w.count("stream:script-monitor-only");
+        let tblc: Vec<String> = tbl
+            .iter()
+            .map(|(id, b)| {
+                format!("({}, {})", coq::n(*id as u64), coq::list(&b.iter().map(|x| x.coq()).collect::<Vec<_>>()))
+            })
+            .collect();
+        let term = if r.bad.is_some() {
+            "(CPanic 1)".to_string()
+        } else {
+            format!("(CMonitor {} {} {})", coq::list(&tblc), coq::list(&r.trace_coq), coq::b(r.dead))
+        };
+        let json = format!(
+            "{{\"stream\":\"script-monitor-only\",\"script\":{},\"trace\":{},\"main_shell_killed\":{}}}",
+            json_str(text),
+            json_str(&r.trace_show.join(" ")),
+            r.dead
+        );
+        w.push(&term, &json, &[], Some(text.to_string()));
+    }
+
+    pub fn corpus_monitor_only(w: &mut CasesWriter) {
+        use B::*;
+        // A SIGCHLD caught only for the shell's own needs (the subshell of the
+        // running USR1 action) owes no run of an action set for CHLD afterwards.
+        let tbl = vec![(1, vec![Probe(1001, 0), Trap(SIGCHLD, Tact::Body(2))]), (2, vec![Probe(1002, 0)])];
+        emit_monitor_only(
+            w,
+            &tbl,
+            "mark USR1 1; trap '(:); p 1001 0; (:); mark CHLD 2; trap \"p 1002 0\" CHLD' USR1\nraise USR1 0\np 1 0\n",
+        );
+        // ... while a child that ends after CHLD was trapped does
     }
 
     // ---- generator ---------------------------------------------------------
@@ -1484,6 +1545,270 @@ mod script {
     }
 }
 
+// ---------------------------------------------------------------------------
+// Stream C: the `trap` built-in (yash-builtin/src/trap.rs) with several
+// conditions in one command, in a non-interactive shell entered with some
+// signals ignored.  After every command the built-in `obs` records
+// TrapSet::get_state and the real disposition and mask of every condition in
+// play; `raise_safe SIG` sends SIG to the shell itself unless that would kill
+// it; trap actions are `hit ID`.
+mod builtin_stream {
+    use super::*;
+    use yash_env::builtin::{Builtin, Type};
+    use yash_env::semantics::{ExitStatus, Field};
+    use yash_env::system::{GetPid as _, SendSignal as _};
+    use yv_harness::vsh::{BuiltinFuture, RunOpts, run_shell};
+
+    #[derive(Default)]
+    struct Ctx {
+        state: Option<State>,
+        univ: Vec<(i32, Disposition)>,
+        /// per `obs`: (exit status of the command before, hits since the last obs, Coq term, shown)
+        obs: Vec<(i32, Vec<u32>, String, String)>,
+        hits: Vec<u32>,
+        /// per `raise_safe`: was the signal sent?
+        sent: Vec<bool>,
+    }
+    thread_local! {
+        static CTX: RefCell<Ctx> = RefCell::new(Ctx::default());
+    }
+
+    fn hit_main(_env: &mut VEnv, args: Vec<Field>) -> BuiltinFuture<'_> {
+        Box::pin(async move {
+            let id = args.first().and_then(|f| f.value.parse().ok()).unwrap_or(0);
+            CTX.with(|c| c.borrow_mut().hits.push(id));
+            ExitStatus::SUCCESS.into()
+        })
+    }
+    fn obs_main(env: &mut VEnv, _args: Vec<Field>) -> BuiltinFuture<'_> {
+        Box::pin(async move {
+            let status = env.exit_status;
+            CTX.with(|c| {
+                let mut c = c.borrow_mut();
+                let state = c.state.clone().expect("state");
+                let (term, shown, _, _, _) = observe(env, &state, &c.univ);
+                let hits = std::mem::take(&mut c.hits);
+                c.obs.push((status.0, hits, term, shown));
+            });
+            status.into()
+        })
+    }
+    fn raise_safe_main(env: &mut VEnv, args: Vec<Field>) -> BuiltinFuture<'_> {
+        Box::pin(async move {
+            let sg = script::number_of_any(&args[0].value);
+            let safe = {
+                let state = CTX.with(|c| c.borrow().state.clone().expect("state"));
+                let st = state.borrow();
+                st.processes[&env.main_pid].disposition(number(sg)) != Disposition::Default
+            } && sg != SIGKILL && sg != SIGSTOP;
+            CTX.with(|c| c.borrow_mut().sent.push(safe));
+            if safe {
+                let pid = env.system.getpid();
+                env.system.kill(pid, Some(number(sg))).await.ok();
+            }
+            ExitStatus::SUCCESS.into()
+        })
+    }
+
+    #[derive(Clone, Debug)]
+    pub enum Step {
+        /// conditions as (number, spelling), action, an invalid operand at this position
+        Trap(Vec<(i32, String)>, Act, Option<usize>),
+        Deliver(i32),
+    }
+
+    const NAMES: [(i32, &str); 9] = [
+        (0, "EXIT"),
+        (1, "HUP"),
+        (2, "INT"),
+        (3, "QUIT"),
+        (9, "KILL"),
+        (15, "TERM"),
+        (116, "STOP"),
+        (124, "USR1"),
+        (125, "USR2"),
+    ];
+    pub fn cond(c: i32, numeric: bool) -> (i32, String) {
+        let name = NAMES.iter().find(|(n, _)| *n == c).expect("condition").1;
+        (c, if numeric { c.to_string() } else { name.to_string() })
+    }
+
+    fn step_text(s: &Step) -> String {
+        match s {
+            Step::Trap(conds, a, bogus) => {
+                let mut ops: Vec<String> = conds.iter().map(|(_, n)| n.clone()).collect();
+                if let Some(i) = bogus {
+                    ops.insert((*i).min(ops.len()), "BOGUS".to_string());
+                }
+                let act = match a {
+                    Act::Default => "-".to_string(),
+                    Act::Ignore => "''".to_string(),
+                    Act::Command(id) => format!("'hit {id}'"),
+                };
+                // naming KILL or STOP is an error of a special built-in, which ends a
+                // non-interactive shell: `command` keeps it alive to be observed
+                let hard = conds.iter().any(|(c, _)| *c == SIGKILL || *c == SIGSTOP);
+                format!("{}trap {act} {}", if hard { "command " } else { "" }, ops.join(" "))
+            }
+            Step::Deliver(c) => format!("raise_safe {}", NAMES.iter().find(|(n, _)| n == c).unwrap().1),
+        }
+    }
+
+    pub fn emit(w: &mut CasesWriter, stream: &str, univ: &[(i32, Disposition)], steps: &[Step]) {
+        let text: String = steps.iter().map(|s| format!("{}; obs\n", step_text(s))).collect();
+        CTX.with(|c| {
+            *c.borrow_mut() = Ctx { univ: univ.to_vec(), ..Default::default() };
+        });
+        let u = univ.to_vec();
+        let (o, _) = script::with_watchdog(&text, 60, || {
+            run_shell(
+                RunOpts { argv: vec!["-c".into(), text.clone()], ..Default::default() },
+                move |env, state| {
+                    {
+                        // the shell was started with these signals ignored
+                        let mut st = state.borrow_mut();
+                        let proc = st.processes.get_mut(&env.main_pid).unwrap();
+                        for (c, d) in &u {
+                            if *c != 0 && *d != Disposition::Default {
+                                proc.set_disposition(number(*c), *d);
+                            }
+                        }
+                    }
+                    CTX.with(|c| c.borrow_mut().state = Some(Rc::clone(state)));
+                    env.builtins.insert("hit", Builtin::new(Type::Mandatory, hit_main));
+                    env.builtins.insert("obs", Builtin::new(Type::Mandatory, obs_main));
+                    env.builtins.insert("raise_safe", Builtin::new(Type::Mandatory, raise_safe_main));
+                },
+            )
+        });
+        let ctx = CTX.with(|c| std::mem::take(&mut *c.borrow_mut()));
+        w.count(&format!("stream:{stream}"));
+        let mut terms = vec![];
+        let mut shown = vec![];
+        let mut sent = ctx.sent.iter();
+        let mut complete = ctx.obs.len() == steps.len();
+        for (s, (status, hits, oterm, oshow)) in steps.iter().zip(&ctx.obs) {
+            match s {
+                Step::Trap(conds, a, bogus) => {
+                    let cs: Vec<String> = conds.iter().map(|(c, _)| coq::n(*c as u64)).collect();
+                    terms.push(format!(
+                        "(BTrapCmd {} {} {} {} {})",
+                        coq::list(&cs),
+                        a.coq(),
+                        coq::b(bogus.is_none()),
+                        coq::b(*status == 0),
+                        oterm
+                    ));
+                    w.count(&format!("builtin:trap-conditions:{}", conds.len().min(4)));
+                    shown.push(format!("{} => status {} [{}]", step_text(s), status, oshow));
+                }
+                Step::Deliver(c) => {
+                    if sent.next() == Some(&true) {
+                        let hs: Vec<String> = hits.iter().map(|h| coq::n(*h as u64)).collect();
+                        terms.push(format!("(BDeliver {} {} {})", coq::n(*c as u64), coq::list(&hs), oterm));
+                        w.count("builtin:deliver");
+                        shown.push(format!("{} => ran {:?} [{}]", step_text(s), hits, oshow));
+                    } else {
+                        shown.push(format!("{} => not sent (would kill the shell)", step_text(s)));
+                    }
+                }
+            }
+        }
+        if o.panicked.is_some() || o.timeout {
+            complete = false;
+        }
+        let term = format!("(CBuiltin {} {} {})", univ_coq(univ), coq::list(&terms), coq::b(complete));
+        let init: Vec<String> = univ.iter().map(|(c, d)| format!("{}:{}", sig_name(*c), d_show(*d))).collect();
+        let json = format!(
+            "{{\"stream\":{},\"initial\":{},\"script\":{},\"steps\":[{}],\"complete\":{}}}",
+            json_str(stream),
+            json_str(&init.join(" ")),
+            json_str(&text),
+            shown.iter().map(|x| json_str(x)).collect::<Vec<_>>().join(","),
+            complete
+        );
+        let multi = steps.iter().any(|s| matches!(s, Step::Trap(c, ..) if c.len() >= 2));
+        w.push(&term, &json, &[], if multi { Some(format!("{}|{}", init.join(" "), text)) } else { None });
+    }
+
+    pub fn corpus(w: &mut CasesWriter) {
+        use Disposition::{Default as D, Ignore as I};
+        let c1 = Act::Command(1);
+        let n = |c| cond(c, false);
+        // entered with INT ignored: the refusal for INT is silent, TERM and QUIT
+        // still get the action
+        let univ = [(2, I), (3, D), (15, D)];
+        emit(
+            w,
+            "builtin-corpus",
+            &univ,
+            &[
+                Step::Trap(vec![n(2), n(15), n(3)], c1, None),
+                Step::Deliver(15),
+                Step::Deliver(3),
+                Step::Deliver(2),
+                Step::Trap(vec![n(2), n(15)], Act::Default, None),
+                Step::Trap(vec![n(2), n(3)], Act::Ignore, None),
+                Step::Deliver(3),
+            ],
+        );
+        // KILL in the middle: an error, the others are still set
+        let univ = [(0, D), (1, D), (9, D), (124, I), (125, D)];
+        emit(
+            w,
+            "builtin-corpus",
+            &univ,
+            &[
+                Step::Trap(vec![n(1), n(9), n(125), n(0)], c1, None),
+                Step::Deliver(125),
+                Step::Trap(vec![n(124), n(1)], Act::Command(2), None),
+                Step::Deliver(1),
+                // an operand that names no condition: nothing is touched
+                Step::Trap(vec![n(1), n(125)], Act::Default, Some(1)),
+                Step::Deliver(1),
+            ],
+        );
+    }
+
+    pub fn random(w: &mut CasesWriter, r: &mut Rng) {
+        let pool = [0, 1, 2, 3, 9, 15, 116, 124, 125];
+        let mut conds: Vec<i32> = vec![];
+        let n = 3 + r.below(5);
+        while conds.len() < n {
+            let c = *r.pick(&pool);
+            if !conds.contains(&c) {
+                conds.push(c);
+            }
+        }
+        conds.sort();
+        let univ: Vec<(i32, Disposition)> = conds
+            .iter()
+            .map(|c| (*c, if *c != 0 && r.chance(2, 5) { Disposition::Ignore } else { Disposition::Default }))
+            .collect();
+        let mut steps = vec![];
+        let len = 2 + r.below(6);
+        for _ in 0..len {
+            if r.chance(3, 5) {
+                let k = 1 + r.below(4);
+                let cs: Vec<(i32, String)> = (0..k).map(|_| cond(*r.pick(&conds), r.chance(1, 4))).collect();
+                let a = match r.below(6) {
+                    0 => Act::Default,
+                    1 => Act::Ignore,
+                    _ => Act::Command(1 + r.below(3) as u32),
+                };
+                let bogus = if r.chance(1, 12) { Some(r.below(k + 1)) } else { None };
+                steps.push(Step::Trap(cs, a, bogus));
+            } else {
+                let c = *r.pick(&conds);
+                if c != 0 {
+                    steps.push(Step::Deliver(c));
+                }
+            }
+        }
+        emit(w, "builtin-random", &univ, &steps);
+    }
+}
+
 fn main() {
     let args = Args::parse();
     let mut rng = Rng::new(args.seed);
@@ -1533,8 +1858,17 @@ fn main() {
         random_history(&mut w, &mut r, args.thorough());
     }
 
+    // stream C: the trap built-in with several conditions
+    builtin_stream::corpus(&mut w);
+    let n = args.scale(300, 4000);
+    for k in 0..n {
+        let mut r = rng.fork(2_000_000 + k as u64);
+        builtin_stream::random(&mut w, &mut r);
+    }
+
     // stream B: scripts
     script::corpus(&mut w);
+    script::corpus_monitor_only(&mut w);
     let n = args.scale(500, 10000);
     for k in 0..n {
         let mut r = rng.fork(1_000_000 + k as u64);
